@@ -488,7 +488,14 @@ func (c *fileCtx) stmtList(fn string, list []ast.Stmt) {
 					switch m {
 					case "Mutex.Lock", "RWMutex.Lock", "RWMutex.RLock":
 						lockSites++
-						c.insert(inner.Pos(), "simrt.LockDepth(1);")
+						// In simulation a blocked Lock can never be released by anybody else (tasks are
+						// never switched out while they hold a lock), so it is tried instead and a failure
+						// is reported as a deadlock.
+						sel := call.Fun.(*ast.SelectorExpr)
+						try := map[string]string{"Mutex.Lock": "TryLock", "RWMutex.Lock": "TryLock", "RWMutex.RLock": "TryRLock"}[m]
+						recv := c.text(sel.X)
+						loc := fmt.Sprintf("%s:%d", c.rel, c.fset.Position(inner.Pos()).Line)
+						c.replace(inner.Pos(), inner.End(), fmt.Sprintf("simrt.MutexLock(%s.%s, %s.%s, %q)", recv, sel.Sel.Name, recv, try, loc))
 					case "Mutex.Unlock", "RWMutex.Unlock", "RWMutex.RUnlock":
 						c.insert(inner.End(), ";simrt.LockDepth(-1)")
 					case "Once.Do":
